@@ -14,13 +14,13 @@ LEVEL_TEXT = ('Lean 4 theorems about the model of propagate_fft, for all fields,
               'buffers: the centred FFT (fftshift . fft2 ortho . ifftshift by their NumPy contracts) equals the unitary dft2 with '
               'alpha = 1/S and both origins at floor(S/2) for even and odd grids (generic, and instantiated at C/R with no hypotheses); '
               'for isotropic dx*du the reported wavelength makes alpha = 1/S on both axes, hence every output sample equals dft2 of '
-              'the same padded grid at the reported wavelength; the result does not depend on the content or size of a sufficient '
-              'scratch buffer; a buffer of exactly fft_shape is accepted, smaller ones, shapes with shape*oversample > fft_shape and '
+              'the same padded grid at the reported wavelength; the result with a sufficient scratch buffer of any size and content equals the result without scratch '
+              '(scratch grid = pad(Wavefront.field) proved on the generated insert kernel); a buffer of exactly fft_shape is accepted, smaller ones, shapes with shape*oversample > fft_shape and '
               'tilted wavefronts are refused. The model is tied to the implementation by a differential correspondence at Float. '
               'Partial: see note.')
-LEVEL_NOTE = ('Partial: np.fft.fft2/fftshift/ifftshift and np.round enter through their documented contracts (not verified); that the '
-              'scratch path and pad(Wavefront.field) build the same grid, and that dft2 of the padded grid is propagate_dft of the '
-              'fields with their offsets, are carried by the correspondence/oracle (need C06 insert_emb / C01 dft2_subarray_offset); '
+LEVEL_NOTE = ('Partial: np.fft.fft2/fftshift/ifftshift and np.round enter through their documented contracts (not verified); that '
+              'dft2 of the padded grid is propagate_dft of the individual fields with their offsets is carried by the '
+              'correspondence/oracle (needs C01 dft2_subarray_offset); '
               'anisotropic dx*du is excluded by hypothesis (known finding KF-C09-fft-anisotropic-wavelength). '
               'Trusted: Lean kernel, py2lean subset semantics, generator coverage.')
 TECHNIQUE = 'Lean 4 proof (finite-sum reindexing, omega) over hand model with differential correspondence at Float'
@@ -33,8 +33,7 @@ RULE = ('cases: pupils 1..6 x 1..6 (even/odd/non-square, off-centre, segmented) 
         'non-trivial = odd grid or scratch or explicit shape or refusal')
 TRUSTED = ['np.fft.fft2(norm="ortho") = unitary DFT with origin at index 0; np.fft.fftshift/ifftshift = rotations by +-floor(n/2); '
            'np.round = round-half-even; lentil.field.insert as modelled by insertArr (C06)']
-UNPROVEN = ['scratch path and pad(Wavefront.field, fft_shape) build the same grid (correspondence + oracle only; needs C06 insert_emb)',
-            'dft2 of the padded grid = propagate_dft of the individual fields with offsets (C01 dft2_subarray_offset + C02; oracle-checked)',
+UNPROVEN = ['dft2 of the padded grid = propagate_dft of the individual fields with offsets (C01 dft2_subarray_offset + C02; oracle-checked)',
             'anisotropic dx*du (known finding): a single reported wavelength cannot describe two per-axis grids']
 ASSUMPTIONS = ['pupil (wavefront.shape) no larger than the FFT grid; isotropic dx*du for the FFT = DFT clause; oversample >= 1']
 
